@@ -445,8 +445,12 @@ pub fn judge(prop: &str, d: Option<&Driver>, names: &[String], policy: Policy, k
                             ev.failures.push(fail("C12", "batch-torn-by-damage", idx, format!("{what}: {msg}")));
                         }
                     }
-                    "C16" => {}
                     _ => {}
+                }
+            }
+            if prop == "C16" {
+                if let Some(msg) = c16_on_recovered(&mut w, &obs) {
+                    ev.failures.push(fail("C16", "recovered-log-accounting", idx, format!("{what}: {msg}")));
                 }
             }
             if prop == "C10" {
@@ -512,4 +516,20 @@ pub fn evaluate_damage(prop: &str, case: &Case, fault: &Fault) -> Vec<Failure> {
         }
         _ => Vec::new(),
     }
+}
+
+/// C16 on a log returned by `open` (after restart, crash recovery or damage): the accounting must
+/// describe the *recovered* state, whatever that state is.
+pub fn c16_on_recovered(w: &mut crate::world::World, obs: &Obs) -> Option<String> {
+    let ru = w.resource_usage();
+    let n: usize = obs.queues.keys().map(|k| k.len()).sum();
+    let b: usize = obs.queues.values().flat_map(|q| q.recs.iter()).map(|r| r.len as usize).sum();
+    let r: usize = obs.queues.values().map(|q| q.recs.len()).sum();
+    if ru.memory_used_bytes < n + b || ru.memory_used_bytes > n + b + 64 * r {
+        return Some(format!("memory_used_bytes={} of the recovered log is outside [{}, {}] (names {} + payload {} + 64 x {} records)", ru.memory_used_bytes, n + b, n + b + 64 * r, n, b, r));
+    }
+    if ru.memory_used_bytes > ru.memory_allocated_bytes {
+        return Some(format!("recovered log: used {} > allocated {}", ru.memory_used_bytes, ru.memory_allocated_bytes));
+    }
+    None
 }
